@@ -87,6 +87,10 @@ func c11W1(ctx *core.Ctx, out *core.Out) {
 	a, b := xport.NewPipe()
 	var clock int64
 	pool := &TrackPool{}
+	if (cs.A.Pool || cs.B.Pool) && cs.MsgsA%2 == 0 {
+		// an application pool may be slow: widens whatever the library leaves open around Put
+		pool.PutDelay = func() { runtime.Gosched(); time.Sleep(100 * time.Microsecond) }
+	}
 	mkEnd := func(tag uint64, nc *xport.Conn, cfg Cfg, label string) *endpoint {
 		ep := &endpoint{tag: tag, nc: nc, cfg: cfg, clock: &clock}
 		ep.c = newConn(nc, cfg, pool, int(tag))
